@@ -17,14 +17,38 @@ package harness
 //      fresh-process execution line by line (and the same comparison is made here, monitor replica_agreement,
 //      scope "fresh-process", so that a disagreement carries a class),
 //   4. once more in this process with the `all_odds` list of every wager ticket (bet and subaccount wagers)
-//      REVERSED: app hashes and events must not change (monitor ticket_list_order; Lean: C15 wager_perm).
+//      REVERSED: app hashes and events must not change (monitor ticket_list_order; Lean: C15 wager_perm),
+//   5. as a RESTARTED REPLICA: the same blocks, but after the Commit of one or two blocks drawn by the history's
+//      PRNG (detGen.drawRestarts; three times out of four right where a parameter change of the history takes
+//      effect) the application object is dropped and a NEW one is constructed over the SAME database
+//      (Env.Restart in base.go: app.NewSgeApp with loadLatest = true over the MemDB that NewEnvOn retained; it
+//      must come up at the committed height and app hash), and the remaining blocks run on it. Keeper structs
+//      and everything they point to are new and empty, the committed multistore is identical: a validator that
+//      was restarted, or a node that joined by state sync. Every record (app hash, per-store hashes, results,
+//      events, gas) must equal execution 1: monitor replica_agreement, class `restarted-replica-differs`; the
+//      detail names the first differing block, the stores whose commit hashes differ, and — from a re-execution
+//      of both variants that dumps that store — the first differing key with both values.
+//      No fallback to re-execution from genesis exists. Restarting in one OS process meets one known obstacle,
+//      the process-wide store key of ibc-go's 08-wasm light client (see exportModules in genesis_xi.go): it
+//      always refers to the NEWEST application object, and here the newest object is the one in use (the
+//      stopped instance is never called again; all replicas of a history run one after the other), so nothing
+//      had to be worked around. What a same-process restart cannot forget is package-level state: that is the
+//      job of the fact theorem C15Facts.no_package_level_mutable_state.
+//   6. as a SIMULATING REPLICA: before each block every transaction of the block is run on a throw-away branch
+//      of the check state, as a node does that answers Simulate (gas estimation) queries; class
+//      `simulating-replica-differs`.
+//
+// The generator (second part in suite_determinism_tx.go) also draws atomic multi-message transactions, authority
+// message lists (governance proposals executed in place and through x/gov's submit / vote / EndBlocker), legacy
+// x/params parameter changes, and messages that fail after a valid parameter update of the same transaction.
 //
 // One execution = NewEnv (InitChain from the deterministic genesis + Commit), a set-up block that stores the
-// drawn module parameters, then per block BeginBlock(header{height,time}), every message through
-// app.MsgServiceRouter().Handler(msg) on a cache context that is written only on success (panics recovered),
-// EndBlock, Commit. Recorded per block: the ABCI events of BeginBlock / every message / EndBlock (type and
-// attributes, in order), every message's result (ok + digest of the response data, or codespace/code of the
-// error) with the gas it consumed, the app hash (LastCommitID().Hash) and the commit hash of every store.
+// drawn module parameters (and x/gov's deposit and voting period), then per block BeginBlock(header{height,time}),
+// every transaction through app.MsgServiceRouter().Handler(msg) on a cache context that is written only if all
+// its messages succeed (panics recovered), EndBlock, Commit. Recorded per block: the ABCI events of BeginBlock /
+// every message / EndBlock (type and attributes, in order), every message's result (ok + digest of the response
+// data, or codespace/code of the error) with the gas it consumed, commit or rollback of every group, the app hash
+// (LastCommitID().Hash) and the commit hash of every store.
 // Go randomises the iteration order of every map instance, so two executions already traverse every map in
 // different orders; the fresh process adds a different scheduler configuration and different addresses.
 
@@ -52,6 +76,7 @@ import (
 	tmproto "github.com/cometbft/cometbft/proto/tendermint/types"
 	codectypes "github.com/cosmos/cosmos-sdk/codec/types"
 	"github.com/cosmos/cosmos-sdk/store/rootmulti"
+	storetypes "github.com/cosmos/cosmos-sdk/store/types"
 	sdk "github.com/cosmos/cosmos-sdk/types"
 	"github.com/cosmos/cosmos-sdk/x/authz"
 	banktypes "github.com/cosmos/cosmos-sdk/x/bank/types"
@@ -80,6 +105,11 @@ type detMsg struct {
 	// wire form of msg / alt, fixed at generation time. Every execution decodes its own copy, as a node decodes
 	// the transaction bytes of a block (a handler may write into its message: x/house's Withdraw does)
 	bz, altBz []byte
+	// transaction the message belongs to: 0 = a transaction of its own; consecutive messages of a block with the
+	// same tx > 0 are ONE transaction (atomic: one cache context, written only if every message succeeds)
+	tx int
+	// signed by the x/gov module account (executed as x/gov executes the messages of a passed proposal)
+	gov bool
 }
 
 // fresh decodes a private copy of the message (or of its reversed-list variant).
@@ -109,12 +139,16 @@ type detParams struct {
 	obMaxPart  uint64
 	obBatch    uint64
 	obRequeue  uint64
-	promoterOf int // account that is registered as reward promoter
+	promoterOf int   // account that is registered as reward promoter
+	govPeriod  int64 // x/gov voting period in seconds
 }
 
 type detHist struct {
 	p      detParams
 	blocks []detBlock
+	// block boundaries at which the restarted replica is stopped and started again (-1 = after the set-up block,
+	// b = after the Commit of blocks[b]); see drawRestarts
+	restarts []int
 }
 
 type detMarket struct {
@@ -154,6 +188,13 @@ type detGen struct {
 	prom    int
 	betMin  int64
 	lastBad bool // the last ticket built by `ticket` is not expected to verify (non-leader key or expired)
+	// suite_determinism_tx.go
+	txn           int     // atomic groups of the current block so far
+	nGov          int     // governance proposals submitted so far (= id of the latest)
+	govPeriod     int64   // voting period of the history
+	driftAt       []int64 // block times from which a parameter change of the history may be in effect
+	drawnBetMin   int64   // minimum bet amount of the latest bet parameter draw
+	pendingBetMin int64   // ... of the authority group being built (0: none)
 }
 
 // ticket signs claims with oracle key `key`; exp is relative to the time of the block that carries the message.
@@ -618,6 +659,7 @@ func genDetHistory(seed uint64, h int) *detHist {
 		houseMin: r.Pick([]int64{2, 10, 100}), houseFee: []string{"0", "0.1", "0.01", "0.05", "0.333333333333333333"}[r.Intn(5)],
 		houseMaxW: uint64(r.Range(1, 3)), obMaxPart: uint64(r.Pick([]int64{2, 4, 8, 100, 100, 100})), obBatch: uint64(r.Pick([]int64{1, 2, 3, 100})),
 		obRequeue: uint64(r.Pick([]int64{0, 0, 1, 5, 29, 1000})), promoterOf: 1 + r.Intn(5),
+		govPeriod: r.Pick([]int64{3, 10, 10, 40}),
 	}
 	if small {
 		hd.p.houseMin, hd.p.houseFee, hd.p.obMaxPart, hd.p.betMin = 2, "0", 100, 2
@@ -626,12 +668,13 @@ func genDetHistory(seed uint64, h int) *detHist {
 	if hd.p.betFee >= hd.p.betMin {
 		hd.p.betFee = hd.p.betMin - 1 // x/bet: the fee must be lower than the minimum bet amount
 	}
-	g.prom, g.betMin = hd.p.promoterOf, hd.p.betMin
+	g.prom, g.betMin, g.govPeriod = hd.p.promoterOf, hd.p.betMin, hd.p.govPeriod
 	g.now = BaseTime + 100
 	nBlocks := 6 + r.Intn(9)
 	for b := 0; b < nBlocks; b++ {
 		g.now += r.Pick([]int64{1, 5, 5, 30, 200})
 		blk := detBlock{time: g.now}
+		g.txn = 0
 		nMsgs := r.Intn(9)
 		if b == 0 {
 			nMsgs = 4 + r.Intn(5)
@@ -669,6 +712,20 @@ func genDetHistory(seed uint64, h int) *detHist {
 				blk.msgs = append(blk.msgs, g.marketAdd())
 				if len(g.markets) > 0 {
 					blk.msgs = append(blk.msgs, g.houseDeposit(small)...)
+				}
+				continue
+			}
+			// operations that can separate process memory from the committed store (suite_determinism_tx.go)
+			if c2 := r.Intn(100); c2 < 16 && len(g.markets) > 0 {
+				switch {
+				case c2 < 4:
+					blk.msgs = append(blk.msgs, g.govExec()...)
+				case c2 < 7:
+					blk.msgs = append(blk.msgs, g.govProposal()...)
+				case c2 < 9:
+					blk.msgs = append(blk.msgs, g.legacyChange())
+				default:
+					blk.msgs = append(blk.msgs, g.userTx(small)...)
 				}
 				continue
 			}
@@ -742,6 +799,7 @@ func genDetHistory(seed uint64, h int) *detHist {
 		}
 		hd.blocks = append(hd.blocks, blk)
 	}
+	hd.restarts = g.drawRestarts(hd.blocks)
 	return hd
 }
 
@@ -761,6 +819,26 @@ type detRun struct {
 	events   int
 	reach    map[string]int
 	halted   bool
+	// atomic groups (suite_determinism_tx.go): messages that succeeded in a group that was rolled back, messages
+	// never executed because an earlier one of their group failed, groups per outcome, failed messages / groups
+	// that had written to the cache context before failing
+	rolled, skipped, groups, wrote map[string]int
+	// restarted replica
+	restarts   int
+	restartErr string
+	simulated  int     // messages executed in simulations (simulating replica)
+	dump       []detKV // contents of the store opts.dumpStore after the Commit of height opts.dumpAt
+}
+
+type detKV struct{ k, v string }
+
+// detOpts selects the variant of an execution.
+type detOpts struct {
+	alt       bool   // wager tickets with the all_odds list reversed
+	restart   bool   // stop and start the application (Env.Restart) at the boundaries hd.restarts
+	simulate  bool   // serve a simulation (gas estimation) of every transaction of a block before the block is executed
+	dumpAt    int64  // dump the store dumpStore after the Commit of this height (0: never)
+	dumpStore string //
 }
 
 var detAddrRe = regexp.MustCompile(`0x[0-9a-f]{6,}`)
@@ -828,10 +906,12 @@ func storeHashes(e *Env) string {
 	return strings.Join(ss, " ")
 }
 
-// execDet executes a history on a fresh application. alt selects the reversed-all_odds variant of the tickets.
-func execDet(hd *detHist, alt bool) *detRun {
-	d := &detRun{ok: map[string]int{}, fail: map[string]int{}}
-	e := NewEnv(1_000_000, 4)
+// execDet executes a history on a fresh application.
+func execDet(hd *detHist, opts detOpts) *detRun {
+	alt := opts.alt
+	d := &detRun{ok: map[string]int{}, fail: map[string]int{}, rolled: map[string]int{}, skipped: map[string]int{},
+		groups: map[string]int{}, wrote: map[string]int{}}
+	e := NewEnv(1_000_000, 4) // the MemDB under the multistore is e.DB
 	for i, a := range detAccounts() {
 		if !a.Equals(e.Accts[i]) {
 			panic("determinism suite: account derivation differs from NewEnv")
@@ -873,6 +953,12 @@ func execDet(hd *detHist, alt bool) *detRun {
 	app.RewardKeeper.SetPromoter(e.Ctx, rewardtypes.Promoter{Creator: prom, UID: UID(0x04, 1), Addresses: []string{prom},
 		Conf: rewardtypes.PromoterConf{CategoryCap: []rewardtypes.CategoryCap{{Category: rewardtypes.RewardCategory_REWARD_CATEGORY_SIGNUP, CapPerAcc: 2}}}})
 	app.RewardKeeper.SetPromoterByAddress(e.Ctx, rewardtypes.PromoterByAddress{Address: prom, PromoterUID: UID(0x04, 1)})
+	// x/gov: deposits in usge, a voting period of seconds (the chain's would be days)
+	gp := app.GovKeeper.GetParams(e.Ctx)
+	gp.MinDeposit = sdk.NewCoins(sdk.NewCoin(params.DefaultBondDenom, sdkmath.NewInt(detGovDeposit)))
+	vp := time.Duration(hd.p.govPeriod) * time.Second
+	gp.VotingPeriod = &vp
+	must(app.GovKeeper.SetParams(e.Ctx, gp))
 	height := e.Height
 	eb := app.EndBlock(abci.RequestEndBlock{Height: height})
 	for _, ev := range eb.Events {
@@ -882,9 +968,35 @@ func execDet(hd *detHist, alt bool) *detRun {
 	d.add("apphash", "setup", "s %s", hex.EncodeToString(app.LastCommitID().Hash))
 	d.add("apphash", "setup", "ss %s", storeHashes(e))
 
-	for _, blk := range hd.blocks {
+	// boundary: the restarted replica stops here and a new application instance is started over the same database
+	boundary := func(b int) bool {
+		d.dumpIf(e, opts, height)
+		if !opts.restart {
+			return true
+		}
+		for _, rb := range hd.restarts {
+			if rb == b {
+				if what := e.Restart(); what != "" {
+					d.restartErr = fmt.Sprintf("after block index %d (height %d): %s", b, height, what)
+					return false
+				}
+				app = e.App
+				d.restarts++
+			}
+		}
+		return true
+	}
+	if !boundary(-1) {
+		return d
+	}
+	for bi, blk := range hd.blocks {
 		height++
 		hdr := tmproto.Header{Height: height, Time: time.Unix(blk.time, 0).UTC(), AppHash: app.LastCommitID().Hash}
+		if opts.simulate {
+			d.simulated += simulateBlock(app.NewContext(true, hdr), func(msg sdk.Msg) func(ctx sdk.Context, req sdk.Msg) (*sdk.Result, error) {
+				return app.MsgServiceRouter().Handler(msg)
+			}, blk.msgs, func(m *detMsg) sdk.Msg { return m.fresh(alt, app.InterfaceRegistry()) })
+		}
 		d.add("block", "block", "b %d %d %d", height, blk.time, len(blk.msgs))
 		var bb abci.ResponseBeginBlock
 		if what := detHalt(func() { bb = app.BeginBlock(abci.RequestBeginBlock{Header: hdr}) }); what != "" {
@@ -897,30 +1009,17 @@ func execDet(hd *detHist, alt bool) *detRun {
 			d.add("events", "beginblock/"+eventModule(ev), "%s", fmtEvent("B", ev))
 		}
 		ctx := app.NewContext(false, hdr)
-		for i := range blk.msgs {
-			m := &blk.msgs[i]
-			msg := m.fresh(alt, app.InterfaceRegistry())
-			bz := m.bz
-			if alt && m.alt != nil {
-				bz = m.altBz
+		route := func(msg sdk.Msg) func(ctx sdk.Context, req sdk.Msg) (*sdk.Result, error) {
+			return app.MsgServiceRouter().Handler(msg)
+		}
+		decode := func(m *detMsg) sdk.Msg { return m.fresh(alt, app.InterfaceRegistry()) }
+		for i := 0; i < len(blk.msgs); {
+			j := i + 1
+			for blk.msgs[i].tx != 0 && j < len(blk.msgs) && blk.msgs[j].tx == blk.msgs[i].tx {
+				j++
 			}
-			d.add("message", m.mod, "m %d %s %s %s", i, m.label, sdk.MsgTypeURL(msg), short(bz))
-			res, gas, err := deliverDet(app.MsgServiceRouter().Handler(msg), ctx, msg)
-			if err != nil {
-				space, code, _ := sdkerrors.ABCIInfo(err, false)
-				d.fail[m.label]++
-				if detDebug {
-					fmt.Fprintf(os.Stderr, "DET %s: %s\n", m.label, trunc(err.Error(), 200))
-				}
-				d.add("result", m.mod, "r %d err %s %d gas=%d", i, space, code, gas)
-				continue
-			}
-			d.ok[m.label]++
-			d.add("result", m.mod, "r %d ok gas=%d data=%s", i, gas, short(res.Data))
-			for _, ev := range res.Events {
-				d.events++
-				d.add("events", m.mod, "%s", fmtEvent("m"+strconv.Itoa(i), ev))
-			}
+			d.deliverGroup(route, ctx, blk.msgs[i:j], i, alt, decode)
+			i = j
 		}
 		var eb abci.ResponseEndBlock
 		if what := detHalt(func() { eb = app.EndBlock(abci.RequestEndBlock{Height: height}) }); what != "" {
@@ -933,11 +1032,24 @@ func execDet(hd *detHist, alt bool) *detRun {
 		for _, ev := range eb.Events {
 			d.events++
 			d.add("events", "endblock/"+eventModule(ev), "%s", fmtEvent("E", ev))
+			if ev.Type == "active_proposal" { // x/gov's EndBlocker closed the voting period of a proposal
+				for _, at := range ev.Attributes {
+					if at.Key == "proposal_result" {
+						d.groups["x/gov-endblocker."+at.Value]++
+					}
+				}
+			}
 		}
 		d.add("result", "endblock", "eb %d validator_updates=%d", height, len(eb.ValidatorUpdates))
 		app.Commit()
 		d.add("apphash", "block", "h %d %s", height, hex.EncodeToString(app.LastCommitID().Hash))
 		d.add("apphash", "block", "hs %d %s", height, storeHashes(e))
+		if bi < len(hd.blocks)-1 && !boundary(bi) {
+			return d
+		}
+		if bi == len(hd.blocks)-1 {
+			d.dumpIf(e, opts, height)
+		}
 	}
 	if d.halted {
 		d.reach = map[string]int{"chain-halt(begin/end-blocker panic, see C05)": 1}
@@ -974,31 +1086,25 @@ func execDet(hd *detHist, alt bool) *detRun {
 	return d
 }
 
-// deliverDet runs one message as baseapp does: ValidateBasic, then the routed handler on a cache context that
-// is written only on success; a panic is a failed message (baseapp's recovery middleware).
-func deliverDet(h func(ctx sdk.Context, req sdk.Msg) (*sdk.Result, error), ctx sdk.Context, msg sdk.Msg) (res *sdk.Result, gas uint64, err error) {
-	if h == nil {
-		return nil, 0, fmt.Errorf("no handler for %s (message servers are registered only under testing.Testing())", sdk.MsgTypeURL(msg))
+// dumpIf records the contents of one store of the committed multistore (first-differing-key report).
+func (d *detRun) dumpIf(e *Env, opts detOpts, height int64) {
+	if opts.dumpAt == 0 || opts.dumpAt != height || d.dump != nil {
+		return
 	}
-	if err = msg.ValidateBasic(); err != nil {
-		return nil, 0, err
+	d.dump = []detKV{}
+	rs, ok := e.App.CommitMultiStore().(*rootmulti.Store)
+	if !ok {
+		return
 	}
-	cctx, write := ctx.CacheContext()
-	gm := sdk.NewInfiniteGasMeter()
-	cctx = cctx.WithGasMeter(gm)
-	func() {
-		defer func() {
-			if r := recover(); r != nil {
-				err = sdkerrors.Wrapf(errDetPanic, "%v", r)
-			}
-		}()
-		res, err = h(cctx, msg)
-	}()
-	gas = gm.GasConsumed()
-	if err == nil {
-		write()
+	kv, ok := rs.GetStoreByName(opts.dumpStore).(storetypes.KVStore)
+	if !ok {
+		return
 	}
-	return
+	it := kv.Iterator(nil, nil)
+	defer it.Close()
+	for ; it.Valid(); it.Next() {
+		d.dump = append(d.dump, detKV{hex.EncodeToString(it.Key()), trunc(hex.EncodeToString(it.Value()), 96) + "#" + short(it.Value())})
+	}
 }
 
 var detDebug = os.Getenv("VERIF_DET_DEBUG") == "1"
@@ -1158,7 +1264,7 @@ func runDeterminism(seed uint64, n int, out *Out) {
 			if skipHist(h) {
 				continue
 			}
-			d := execDet(genDetHistory(seed, h), false)
+			d := execDet(genDetHistory(seed, h), detOpts{})
 			out.Op("N %d", h)
 			out.Impl("n %d", h)
 			for _, r := range d.recs {
@@ -1184,17 +1290,41 @@ func runDeterminism(seed uint64, n int, out *Out) {
 			continue
 		}
 		hd := genDetHistory(seed, h)
-		d1 := execDet(hd, false)
-		d2 := execDet(hd, false)
-		d3 := execDet(hd, true)
+		d1 := execDet(hd, detOpts{})
+		d2 := execDet(hd, detOpts{})
+		d3 := execDet(hd, detOpts{alt: true})
+		d4 := execDet(hd, detOpts{restart: true})
+		d5 := execDet(hd, detOpts{simulate: true})
 		all = append(all, kept{h, d1.recs})
 		out.Count("histories")
 		out.Stats["blocks"] += int64(len(hd.blocks))
 		out.Stats["events"] += int64(d1.events)
-		out.Stats["executions.in-process"] += 3
+		out.Stats["executions.in-process"] += 5
+		out.Stats["simulating-replica.handler-runs-in-simulations"] += int64(d5.simulated)
+		out.Stats["restarts"] += int64(d4.restarts)
+		for _, rb := range hd.restarts {
+			if rb < 0 {
+				out.Count("restarts.after-setup-block")
+			}
+		}
 		for _, b := range hd.blocks {
 			out.Stats["messages"] += int64(len(b.msgs))
+			lastTx := 0
 			for _, m := range b.msgs {
+				if m.tx != 0 && m.tx != lastTx {
+					if m.gov {
+						out.Count("groups.authority(gov.exec)")
+					} else {
+						out.Count("groups.user-tx")
+					}
+				}
+				lastTx = m.tx
+				if m.tx != 0 {
+					out.Count("messages.in-atomic-groups")
+				}
+				if strings.HasPrefix(m.label, "gov.legacy-param-change.") {
+					out.Count("legacy-param-change.messages") // stand-alone, in a group, or inside a proposal: see msg.* for outcomes
+				}
 				if m.alt != nil {
 					out.Count("messages.with-reversed-all_odds-variant")
 				}
@@ -1209,6 +1339,18 @@ func runDeterminism(seed uint64, n int, out *Out) {
 		for k, v := range d1.reach {
 			out.Stats["reach."+k] += int64(v)
 		}
+		for k, v := range d1.rolled {
+			out.Stats["msg."+k+".ok-but-group-rolled-back"] += int64(v)
+		}
+		for k, v := range d1.skipped {
+			out.Stats["msg."+k+".not-executed(earlier message of the group failed)"] += int64(v)
+		}
+		for k, v := range d1.groups {
+			out.Stats["groups."+k] += int64(v)
+		}
+		for k, v := range d1.wrote {
+			out.Stats["failed-after-writes."+k] += int64(v)
+		}
 		// (2) second in-process execution
 		if ia, ib := firstDiff(d1.recs, d2.recs, nil); ia != -2 {
 			cls, det := classify(d1.recs, d2.recs, ia, ib)
@@ -1217,6 +1359,25 @@ func runDeterminism(seed uint64, n int, out *Out) {
 			// the list-order question is only meaningful against a reproducible baseline
 			out.Count("ticket_list_order.skipped(no reproducible baseline)")
 			continue
+		}
+		// (5) restarted replica: same blocks, the application stopped and started again at hd.restarts
+		if d4.restartErr != "" {
+			out.Fail(MonFail{Property: "C15", Monitor: "replica_agreement", Class: "restarted-replica-differs", History: h,
+				Detail: "a new application instance over the same database does not resume the committed state " + d4.restartErr})
+		} else if ia, ib := firstDiff(d1.recs, d4.recs, nil); ia != -2 {
+			out.Fail(MonFail{Property: "C15", Monitor: "replica_agreement", Class: "restarted-replica-differs", History: h,
+				Detail: restartDetail(hd, d1, d4, ia, ib)})
+		}
+		// (6) simulating replica: the same blocks, every transaction first simulated on the check state
+		if ia, ib := firstDiff(d1.recs, d5.recs, nil); ia != -2 {
+			cls, det := classify(d1.recs, d5.recs, ia, ib)
+			i := ia
+			if i < 0 {
+				i = ib
+			}
+			out.Fail(MonFail{Property: "C15", Monitor: "replica_agreement", Class: "simulating-replica-differs", History: h,
+				Detail: fmt.Sprintf("the replica that served a simulation of every transaction before executing the block disagrees with the replica that served none; in block %d: %s, %s",
+					heightOf(d1.recs, i), cls, det)})
 		}
 		// (4) reversed all_odds lists: state and events are those of the original tickets
 		if ia, ib := firstDiff(d1.recs, d3.recs, appKinds); ia != -2 {
@@ -1259,6 +1420,91 @@ func runDeterminism(seed uint64, n int, out *Out) {
 				Detail: "the execution in a fresh process (GOMAXPROCS=1) disagrees with the execution in this process; " + det})
 		}
 	}
+}
+
+// heightOf: the block ("b <height> ...") a record belongs to; 0 = genesis / set-up block.
+func heightOf(rs []detRec, i int) int64 {
+	for ; i >= 0 && i < len(rs); i-- {
+		if rs[i].kind == "block" {
+			f := strings.Fields(rs[i].line)
+			if len(f) >= 2 {
+				h, _ := strconv.ParseInt(f[1], 10, 64)
+				return h
+			}
+		}
+	}
+	return 0
+}
+
+// restartDetail describes the first disagreement between the never-restarted execution a and the restarted one b:
+// the first differing record with its block, the first block whose app hash differs with the stores that differ,
+// and — from a re-execution of both variants that dumps that store at that height — the first differing key.
+func restartDetail(hd *detHist, a, b *detRun, ia, ib int) string {
+	cls, det := classify(a.recs, b.recs, ia, ib)
+	var hs []string
+	for _, rb := range hd.restarts {
+		hs = append(hs, strconv.Itoa(rb+3)) // set-up block = height 2, blocks[i] = height i+3
+	}
+	i := ia
+	if i < 0 {
+		i = ib
+	}
+	out := fmt.Sprintf("the replica that was restarted after the Commit of height(s) %s disagrees with the replica that was never restarted; "+
+		"in block %d: %s, %s", strings.Join(hs, ","), heightOf(a.recs, i), cls, det)
+	// first differing per-store hash line
+	ka, kb := filterRecs(a.recs, map[string]bool{"apphash": true}), filterRecs(b.recs, map[string]bool{"apphash": true})
+	for k := 0; k < len(ka) && k < len(kb); k++ {
+		la, lb := a.recs[ka[k]].line, b.recs[kb[k]].line
+		if la == lb || !(strings.HasPrefix(la, "hs ") || strings.HasPrefix(la, "ss ")) {
+			continue
+		}
+		fa, fb := strings.Fields(la), strings.Fields(lb)
+		var stores []string
+		for x := 0; x < len(fa) && x < len(fb); x++ {
+			if fa[x] != fb[x] && strings.Contains(fa[x], "=") {
+				stores = append(stores, fa[x][:strings.Index(fa[x], "=")])
+			}
+		}
+		height := int64(2)
+		if strings.HasPrefix(la, "hs ") {
+			height, _ = strconv.ParseInt(fa[1], 10, 64)
+		}
+		out += fmt.Sprintf("; first differing app hash at height %d, stores that differ: %v", height, stores)
+		if len(stores) > 0 {
+			da := execDet(hd, detOpts{dumpAt: height, dumpStore: stores[0]})
+			db := execDet(hd, detOpts{restart: true, dumpAt: height, dumpStore: stores[0]})
+			out += "; store " + stores[0] + ": " + firstKeyDiff(da.dump, db.dump)
+		}
+		return out
+	}
+	return out + "; no committed app hash differs (results, events or gas only)"
+}
+
+func firstKeyDiff(a, b []detKV) string {
+	for i := 0; i < len(a) || i < len(b); i++ {
+		switch {
+		case i >= len(a) || (i < len(b) && b[i].k < a[i].k):
+			return fmt.Sprintf("key %s (%s) only in the restarted replica, value %s", b[i].k, printableKey(b[i].k), b[i].v)
+		case i >= len(b) || a[i].k < b[i].k:
+			return fmt.Sprintf("key %s (%s) only in the never-restarted replica, value %s", a[i].k, printableKey(a[i].k), a[i].v)
+		case a[i].v != b[i].v:
+			return fmt.Sprintf("first differing key %s (%s): never-restarted %s vs restarted %s", a[i].k, printableKey(a[i].k), a[i].v, b[i].v)
+		}
+	}
+	return "no differing key found in a re-execution (the disagreement is not reproducible)"
+}
+
+func printableKey(hx string) string {
+	bz, _ := hex.DecodeString(hx)
+	var sb strings.Builder
+	for _, c := range bz {
+		if c >= 0x20 && c < 0x7f {
+			sb.WriteByte(c)
+		} else {
+			sb.WriteByte('.')
+		}
+	}
+	return strconv.Quote(trunc(sb.String(), 80))
 }
 
 func okErrLines(rs []detRec) string {
